@@ -1,6 +1,6 @@
 """C20: cgreen's own bookkeeping (CgreenVector, TestSuite entry array, breadcrumb trail, name
 buffers) is safe for any count / name length and shows no change at growth boundaries."""
-import os, re, subprocess
+import os, re, shutil, subprocess, tempfile
 from concurrent.futures import ThreadPoolExecutor
 import vlib, layerc as L
 
@@ -20,12 +20,12 @@ def asan_summary(err):
     m = re.search(r"ERROR: AddressSanitizer: (\S+).*?\n((?:\s+#\d+ .*\n){1,12})", err, re.S)
     if m:
         fr = re.findall(r"#\d+ \S+ in (\S+) (\S+)", m.group(2))
-        own = [f for f in fr if "/repo/" in f[1] or "src/" in f[1]]
+        own = [f for f in fr if ("/repo/" in f[1] or "src/" in f[1]) and "libsanitizer" not in f[1]]
         f = (own or fr or [("?", "?")])[0]
         return "%s in %s (%s)" % (m.group(1), f[0], os.path.basename(f[1]))
     m = re.search(r"(\S+:\d+:\d+): runtime error: (.*)", err)
     if m:
-        return "UBSan: %s at %s" % (m.group(2), m.group(1))
+        return "UBSan: %s at %s" % (re.sub(r"0x[0-9a-f]+", "0x..", m.group(2)), m.group(1))
     return None
 
 
@@ -275,7 +275,69 @@ def check_C20(chk):
         if r.exit != 0 or tot is None or tot[0] != expect or tot[1:] != (0, 0, 0):
             chk.violation("run-results", "%s under the %s reporter: exit %s, totals %s, expected %d passes and nothing else" % (label, rep, r.exit, tot, expect),
                           dict(rp, stderr=r.stderr[-800:], stdout=r.stdout[-400:]))
+    tool_runs(chk, build)
     return chk.finish()
+
+
+def tool_runs(chk, build):
+    """cgreen-runner (sanitizer build) on generated libraries: test and context names of any length in the
+    discovered-test list, a library path of any length, a pattern of any length"""
+    import check_runner as R
+    d = tempfile.mkdtemp(prefix="c20tool")
+    jobs = []
+    try:
+        nlens = [100, 940, 960, 1500] if chk.tier == "quick" else [1, 100, 500, 900, 940, 950, 960, 990, 1000, 1500, 3000]
+        for ln in nlens:
+            tests = [(None, "t" * ln, True), (None, "other", True), ("Ctx", "x" * ln, True), ("C" * ln, "in_long_context", True)]
+            so = R.build_lib(build, d, "n%d" % ln, tests)
+            jobs.append(("toolnames len=%d" % ln, [so], 4, None))
+            jobs.append(("toolpattern len=%d" % ln, [so, "t" * ln], 1, None))
+            jobs.append(("toolpattern-nomatch len=%d" % ln, [so, "q" * ln], 0, "No such test"))
+        base = R.build_lib(build, d, "plain", [(None, "one", True), ("Ctx", "two", True)])
+        plens = [200, 980, 1000, 1200, 3000] if chk.tier == "quick" else [100, 200, 900, 960, 980, 990, 1000, 1001, 1200, 2000, 3000, 3900]
+        for ln in plens:
+            sub = os.path.join(d, "p%d" % ln)
+            os.makedirs(sub)
+            cur = sub
+            while len(cur) + 8 < ln:                        # + "/plain.so"
+                part = "d" * min(200, ln - len(cur) - 9)
+                if not part:
+                    break
+                cur = os.path.join(cur, part)
+            os.makedirs(cur, exist_ok=True)
+            so = os.path.join(cur, "plain.so")
+            shutil.copy(base, so)
+            jobs.append(("toolpath len=%d" % len(so), [so], 2, None))
+        with ThreadPoolExecutor(vlib.NPROC) as ex:
+            def one(j):
+                jd = tempfile.mkdtemp(prefix="j", dir=d)
+                return R.run_runner(build, jd, j[1], timeout=120)
+            results = list(ex.map(one, jobs))
+        for (label, args, expect, refusal), (rc, out, executed) in zip(jobs, results):
+            chk.case(("tool", label))
+            chk.count("run:" + label.split(" ")[0])
+            rp = {"what": label, "args": [a if len(a) < 300 else a[:100] + "...(%d characters)" % len(a) for a in args],
+                  "how": "build a library with such names (tools/check_runner.py lib_sources) and run _work/build-asan/tools/cgreen-runner on it with ASAN_OPTIONS=detect_leaks=0",
+                  "output": out[-1500:]}
+            san = asan_summary(out)
+            if san:
+                i = max(out.find("ERROR: AddressSanitizer"), out.find("runtime error"), 0)
+                rp["output"] = out[max(0, i - 200):i + 1800]
+            if san:
+                sig = "tool-memory:" + re.sub(r"[^A-Za-z0-9_]+", "-", san)[:80]
+                chk.violation(sig, "undefined behaviour inside cgreen-runner (%s): %s" % (label, san), dict(rp, sanitizer=san))
+                continue
+            if rc is None:
+                chk.violation("tool-hang", "cgreen-runner did not terminate (%s)" % label, rp)
+                continue
+            if refusal is not None:
+                if rc == 0 or executed:
+                    chk.violation("tool-results", "%s: expected a refusal (%s), got exit %s and %d tests executed" % (label, refusal, rc, len(executed)), rp)
+                continue
+            if rc != 0 or len(executed) != expect:
+                chk.violation("tool-results", "%s: exit %s and %d tests executed; the small case runs %d tests and exits 0" % (label, rc, len(executed), expect), rp)
+    finally:
+        shutil.rmtree(d, ignore_errors=True)
 
 
 def _ops_of(il):
@@ -310,6 +372,17 @@ def gen_runs(chk, step):
         exp = sum(1 for _ in inner.tests())
         for rep in (reps if chk.tier == "thorough" or depth in (99, 100, 101) else ["text", "xml"]):
             runs.append(("depth d=%d" % depth, inner, rep, "forked", exp))
+    # nesting depth again with one-character suite names: the path stays below NAME_MAX, so the xml reporters
+    # really nest that deep (one open file / document per level)
+    for depth in ([99, 100, 101, 120] if chk.tier == "quick" else [1, 50, 98, 99, 100, 101, 102, 120]):
+        tid[0] = 0
+        inner = L.Suite(depth, children=[test()])
+        inner.name_override = "a"
+        for d in range(depth - 1, -1, -1):
+            inner = L.Suite(d, children=[inner])
+            inner.name_override = "a"
+        for rep in ("xml", "libxml", "text"):
+            runs.append(("shortdepth d=%d" % depth, inner, rep, "forked", 1))
     # name lengths: suite, nested suite and test names
     lens = [1, 50, 90, 93, 94, 99, 100, 101, 255, 256, 999, 1000, 1001, 4090, 5000] if chk.tier == "thorough" else [1, 93, 94, 99, 100, 101, 255, 1000, 1001, 5000]
     for ln in lens:
